@@ -5,7 +5,7 @@ from fractions import Fraction
 def to_poly(e, memo, subst=None):
     """z3 Real polynomial expr -> dict {monomial(tuple of (varname,pow) sorted): Fraction}"""
     k = e.get_id()
-    if k in memo: return memo[k]
+    if k in memo: return memo[k][1]          # the entry keeps the term alive: z3 re-uses the ids of collected terms
     d = e.decl().kind()
     if z3.is_rational_value(e) or z3.is_int_value(e):
         r = {(): Fraction(e.as_fraction()) if z3.is_rational_value(e) else Fraction(e.as_long())}
@@ -28,10 +28,17 @@ def to_poly(e, memo, subst=None):
         for c in e.children(): r = pmul(r, to_poly(c, memo, subst))
     elif d == z3.Z3_OP_TO_REAL:
         r = to_poly(e.children()[0], memo, subst)
+    elif d == z3.Z3_OP_POWER and z3.is_int_value(e.children()[1]) or (d == z3.Z3_OP_POWER and z3.is_rational_value(e.children()[1]) and e.children()[1].as_fraction().denominator == 1):
+        n_ = int(e.children()[1].as_fraction()) if z3.is_rational_value(e.children()[1]) else e.children()[1].as_long()
+        if n_ < 0:
+            raise ValueError("non-polynomial: negative power")
+        base = to_poly(e.children()[0], memo, subst)
+        r = {(): Fraction(1)}
+        for _ in range(n_): r = pmul(r, base)
     else:
         raise ValueError("non-polynomial: %s" % e.decl())
     r = {m:v for m,v in r.items() if v != 0}
-    memo[k] = r
+    memo[k] = (e, r)
     return r
 def pmul(a, b):
     r = {}
